@@ -1566,8 +1566,11 @@ impl<'a, const C: usize, const R: usize, T: 'a + Copy + std::fmt::Debug> Layout<
         use crate::action::Action::*;
         let x = coord.0 as usize;
         let y = coord.1 as usize;
-        assert!(x <= self.layers[0].len());
-        assert!(y <= self.layers[0][0].len());
+        if x >= R || y >= C {
+            // Coordinates outside of the layer table, e.g. the virtual coordinates that chords
+            // v2 uses for its actions, have no layer or defsrc action to fall back to.
+            return &NoOp;
+        }
         for layer in layer_stack {
             assert!(usize::from(layer) <= self.layers.len());
             let action = &self.layers[usize::from(layer)][x][y];
@@ -1619,11 +1622,14 @@ impl<'a, const C: usize, const R: usize, T: 'a + Copy + std::fmt::Debug> Layout<
                 self.rpt_action = Some(action);
             }
             Src => {
-                let action = &self.src_keys[usize::from(coord.1)];
-                // Risk: infinite recursive resulting in stack overflow.
-                // In practice this is not expected to happen.
-                // The `src_keys` actions are all expected to be `KeyCode` or `NoOp` actions.
-                self.do_action(action, coord, delay, is_oneshot, &mut std::iter::empty());
+                // `coord` can be outside of `src_keys`, e.g. a chords v2 virtual coordinate;
+                // there is no defsrc key to use then.
+                if let Some(action) = self.src_keys.get(usize::from(coord.1)) {
+                    // Risk: infinite recursive resulting in stack overflow.
+                    // In practice this is not expected to happen.
+                    // The `src_keys` actions are all expected to be `KeyCode` or `NoOp` actions.
+                    self.do_action(action, coord, delay, is_oneshot, &mut std::iter::empty());
+                }
             }
             Trans => {
                 // Transparent action should be resolved to non-transparent one near the top
